@@ -122,10 +122,11 @@ func (db *DB) put(mode storage.ModePut, rootAddr boson.Address, chs ...boson.Chu
 			}
 			exist[i] = exists
 			if mode == storage.ModePutUploadPin {
-				_, err = db.setPin(batch, item, addressToItem(rootAddr))
+				c, err := db.setPin(batch, item, addressToItem(rootAddr))
 				if err != nil {
 					return nil, err
 				}
+				gcSizeChange += c
 			}
 		}
 
